@@ -798,7 +798,7 @@ class command(FieldType):
         elif isinstance(other, (tuple, list)):
             return self.executable == other[0] and self.args == list(other[1:])
 
-        return False
+        return NotImplemented
 
     def _split(self, value: str) -> tuple[str, list[str]]:
         executable, *args = shlex.split(value, posix=self._posix)
